@@ -71,8 +71,7 @@ func (p *process) Invoke(msgs []Envelope) {
 		// so we can retry them on the next restart.
 		if v := recover(); v != nil {
 			if !p.restartsExceeded(v) {
-				p.context.message = Stopped{}
-				applyMiddleware(p.context.receiver.Receive, p.Opts.Middleware...)(p.context)
+				p.deliverStopped()
 			}
 
 			p.mbuffer = make([]Envelope, 0, nmsg-nproc+1)
@@ -129,8 +128,7 @@ func (p *process) Start() {
 	defer func() {
 		if v := recover(); v != nil {
 			if !p.restartsExceeded(v) {
-				p.context.message = Stopped{}
-				applyMiddleware(p.context.receiver.Receive, p.Opts.Middleware...)(p.context)
+				p.deliverStopped()
 			}
 			p.tryRestart(v)
 		}
@@ -224,10 +222,23 @@ func (p *process) cleanup(cancel context.CancelFunc) {
 	p.stopped = true
 	p.inbox.Stop()
 	p.context.engine.Registry.Remove(p.pid)
-	p.context.message = Stopped{}
-	applyMiddleware(p.context.receiver.Receive, p.Opts.Middleware...)(p.context)
+	p.deliverStopped()
 
 	p.context.engine.BroadcastEvent(ActorStoppedEvent{PID: p.pid, Timestamp: time.Now()})
+}
+
+// deliverStopped hands Stopped to the receiver. It runs inside the recover
+// handlers and at the end of cleanup, where nothing is left to catch a panic:
+// a receiver that panics while handling Stopped must not take the process down
+// or keep cleanup from completing.
+func (p *process) deliverStopped() {
+	defer func() {
+		if v := recover(); v != nil {
+			slog.Error("panic while handling Stopped", "pid", p.pid, "reason", v)
+		}
+	}()
+	p.context.message = Stopped{}
+	applyMiddleware(p.context.receiver.Receive, p.Opts.Middleware...)(p.context)
 }
 
 func (p *process) PID() *PID { return p.pid }
